@@ -128,6 +128,95 @@ def signature(exe, cfg, lg, path, env, hang):
     return {"pass": re.sub(r"\(.*", "", pas or own[-1]), "in": re.sub(r"\(.*", "", own[0])}
 
 
+def width_loop_monitor(ctx, exe, sc, pairs, env, thorough):
+    """tie of C06_width_loop_bounded: hook H7 records cpd.changes and the number of newline chunks at the head and the foot of every
+    iteration of the code_width loop.  Hypothesis of the theorem = every counted change of an iteration (after the one that runs the
+    one-off `first` block, which may also remove line breaks) uses up a slot: it adds a line break or clears one-liner flags;
+    conclusion = iterations <= free slots + 1."""
+    from vlib import gen
+    rng = ctx.rng
+    jobs = []
+    cw_sets = [{"code_width": 40, "nl_remove_extra_newlines": 2}, {"code_width": 30}, {"code_width": 60, "ls_func_split_full": "true", "ls_for_split_full": "true"},
+               {"code_width": 20, "indent_columns": 8}, {"code_width": 50, "ls_code_width": "true"}]
+    small = [p for p in pairs if os.path.getsize(p[2]) < 8000]
+    for i in range(400 if thorough else 90):
+        o = rng.choice(cw_sets)
+        if i % 3 == 0:
+            lg = rng.choice(["C", "CPP", "JAVA"])
+            data = gen.program(rng, lg, stats=ctx.hist)[1].encode()
+            src = "<generated>"
+        else:
+            name, cfg, inp, lang = rng.choice(small)
+            d = os.path.basename(os.path.dirname(inp))
+            lg = (lang or LANGS.get(d, "C") or "C").split("+")[0]
+            data = open(inp, "rb").read()
+            src = os.path.relpath(inp, common.REPO)
+        jobs.append((sc.write(data, EXT.get(lg, ".c")), sc.cfg(None, o), lg, o, src))
+    # the regression inputs of the fixed loop defects first
+    import json
+    for c in json.load(open(os.path.join(common.ROOT, "corpus", "c06.json")))["cases"]:
+        if "code_width" in c.get("options", {}):
+            jobs.insert(0, (sc.write(c["input"].encode("latin1"), EXT.get(c["lang"], ".c")), sc.cfg(None, c["options"]), c["lang"], c["options"], "corpus:" + c["name"]))
+
+    def one(j):
+        p, cfg, lg, o, src = j
+        tr = p + ".trace"
+        e = dict(env, UNC_VERIF_OUT=tr)
+        try:
+            r = subprocess.run([exe, "-q", "-c", cfg, "-l", lg, "-f", p], stdout=subprocess.DEVNULL, stderr=subprocess.DEVNULL, env=e, timeout=TIMEOUT)
+            rc = r.returncode
+        except subprocess.TimeoutExpired:
+            rc = "timeout"
+        recs = []
+        if os.path.exists(tr):
+            with open(tr, errors="replace") as f:
+                for ln in f:
+                    if ln.startswith("WL "):
+                        recs.append(dict(x.split("=", 1) for x in ln.split()[1:]))
+            os.remove(tr)
+        return rc, recs
+    res = common.pmap(one, jobs)
+    bad = iters = checked = 0
+    for (p, cfg, lg, o, src), (rc, recs) in zip(jobs, res):
+        ctx.case("wl:%s:%s:%s" % (src, sorted(o.items()), hash(open(p, "rb").read())))
+        if not recs:
+            continue
+        its = []
+        for a, b in zip(recs[0::2], recs[1::2]):
+            if a["point"] == "head" and b["point"] == "foot":
+                its.append((a, b))
+        iters += len(its)
+        checked += 1
+        ctx.count("width-loop-iterations:%s" % (len(its) if len(its) < 6 else "6+"))
+        why = None
+        if its:
+            # slots of the model: gaps without a line break + chunks flagged as one-liner
+            free0 = int(its[0][0]["n"]) - int(its[0][0]["nlc"]) + int(its[0][0].get("ol", 0))
+            # iterations after the one that consumed `first` (its one-off newline passes may also remove line breaks)
+            for k, (a, b) in enumerate(its):
+                ran_first = a["first"] == "1" and b["first"] == "0"
+                dch, dnl = int(b["changes"]) - int(a["changes"]), int(b["nlc"]) - int(a["nlc"])
+                dol = int(b.get("ol", 0)) - int(a.get("ol", 0))
+                if dch > 0 and dnl <= 0 and dol >= 0 and not ran_first:
+                    why = ("iteration %d of the code_width loop counts %d change(s) but neither adds a line break (%s -> %s newline chunks) nor "
+                           "undoes a one-liner (%s -> %s flagged chunks)" % (k + 1, dch, a["nlc"], b["nlc"], a.get("ol"), b.get("ol")))
+                    break
+            if why is None and len(its) > free0 + 2:
+                why = "the code_width loop ran %d times, more than the %d free slots (gaps without a line break, one-liner flags) + 2" % (len(its), free0)
+        if why is None and rc == "timeout" and its:
+            why = "the run does not end within %d s inside the code_width loop (%d iterations recorded)" % (TIMEOUT, len(its))
+        if why:
+            bad += 1
+            if bad <= 3:
+                ctx.violation("%s [%s, options %s]: the hypothesis of theorem C06_width_loop_bounded (a counted change uses up a slot) does not "
+                              "describe this run" % (why, src, o),
+                              {"input_latin1": open(p, "rb").read().decode("latin1")[:20000], "lang": lg, "options": o, "source": src,
+                               "records": recs[:12], "how": "hook build, UNC_VERIF_OUT=trace uncrustify -q -c cfg -l L -f input; lines `WL ...` of the trace"},
+                              key=None, found_input=True)
+    ctx.oblige("monitor H7: in the code_width loop every counted change adds a line break or undoes a one-liner; iterations <= free slots + 2 (%d runs, %d iterations)"
+               % (checked, iters), bad == 0, "monitor", "%d" % bad)
+
+
 def run(ctx):
     ctx.level = "proof"
     ctx.cov["rule"] = ("one case = one run of the real binary on a mutated corpus input (line/byte truncation, deleted/duplicated line, bracket "
@@ -292,6 +381,7 @@ def run(ctx):
                                   {"files": [os.path.relpath(f, common.REPO) for f in group], "argv": "uncrustify -q -c /dev/null f1 f2 ..."},
                                   key=None, found_input=True)
         ctx.oblige("exploration: several files in one invocation end with a documented status (%d invocations)" % mruns, mbad == 0, "oracle", "%d" % mbad)
+        width_loop_monitor(ctx, exe, sc, pairs, env, thorough)
         ctx.oblige("exploration: every run ends with a documented status, no signal/sanitizer report/timeout, nothing on stdout when refused (%d runs)"
                    % len(res), bad == 0, "oracle", "%d failures" % bad)
         ctx.sample({"mutation": res[0][0][3], "rc": res[0][1], "lang": res[0][0][2]})
